@@ -6,6 +6,7 @@ yields one flat transition record
     out: {"ok": <Obs>} | {"exc": type}, reparse: ..., twin: ..., prog, step}
 
 which is exactly one action of the YarlValue state machine, observed on the real code."""
+import os
 import sys
 import copy
 import pickle
@@ -348,8 +349,20 @@ def under_recursion_faults(f, frames=60):
             sys.setrecursionlimit(old)
 
 
+_AUTO_FAULT_EVERY = int(os.environ.get("VERIF_AUTO_FAULT_EVERY", "16") or 0)
+
+
+def _auto_fault(call):
+    """one program in sixteen (chosen by a checksum of the program, so replays agree) is run with a fault history first"""
+    if not _AUTO_FAULT_EVERY:
+        return False
+    import json
+    import zlib
+    return zlib.crc32(json.dumps(call["prog"], sort_keys=True).encode()) % _AUTO_FAULT_EVERY == 0
+
+
 def execute_all(call):
-    if "faulted" in call.get("extras", ()):
+    if "faulted" in call.get("extras", ()) or _auto_fault(call):
         fault_history(call["prog"])
     recs = run_prog(call["prog"], call.get("fields"), call.get("extras", ()))
     for r in recs:
